@@ -161,6 +161,39 @@ theorem wb_enc_eq_fips (K M : List Nat) (hK : K.length = 8) (hKb : IsBytes K) (h
   rw [wb_enc_eq_des K M hK]; exact Des.enc_refines K M hKb hMb
 
 
+/-! ### several generations in one process: the tables are a function of the key only -/
+
+/-- GENERATION HAS NO HISTORY: generate the network of K1, let the caller modify it in place in an arbitrary way (`f`),
+    then generate the network of K2 — the second network is exactly `mkWhiteDES K2`, whatever K1 and `f` were, and
+    the first one is the modified `mkWhiteDES K1`.  (In the model a table is a value, so this is immediate from the
+    totality of generation; it is the statement the `wb.seq` lines of the correspondence stream echo on the real
+    objects, where sharing of a list between two calls or two instances would break it.) -/
+theorem gen_seq_key_only (K1 K2 : List Nat) (f : WhiteDES → WhiteDES) :
+    ∃ w1 w2, mkWhiteDES K1 = .ok w1 ∧ mkWhiteDES K2 = .ok w2 ∧ genSeq K1 f K2 = .ok (f w1, w2) := by
+  obtain ⟨w1, h1, _⟩ := network_total K1
+  obtain ⟨w2, h2, _⟩ := network_total K2
+  exact ⟨w1, w2, h1, h2, by simp [genSeq, h1, h2, bind, Except.bind, pure, Except.pure]⟩
+
+/-- … so two histories that end with the same key end with the same network -/
+theorem gen_seq_history_irrelevant (K1 K1' K2 : List Nat) (f f' : WhiteDES → WhiteDES) :
+    (genSeq K1 f K2).map Prod.snd = (genSeq K1' f' K2).map Prod.snd := by
+  obtain ⟨_, w2, _, h2, h⟩ := gen_seq_key_only K1 K2 f
+  obtain ⟨_, w2', _, h2', h'⟩ := gen_seq_key_only K1' K2 f'
+  rw [h2] at h2'; cases h2'
+  rw [h, h']; rfl
+
+/-- … its key-independent tables are the extracted ones, and it computes DES under its own key: for every earlier
+    key, every modification of the earlier network, every 8-byte key K2 and every message -/
+theorem gen_seq_second_is_des (K1 K2 M : List Nat) (f : WhiteDES → WhiteDES) (hK : K2.length = 8) :
+    ∃ w1 w2, genSeq K1 f K2 = .ok (w1, w2) ∧ w2.tM1 = Gen.Wb.m1 ∧ w2.tM2 = Gen.Wb.m2mat ∧ w2.tM3 = Gen.Wb.m3 ∧
+      w2.enc M = Des.enc K2 M := by
+  obtain ⟨w1, w2, _, h2, h⟩ := gen_seq_key_only K1 K2 f
+  obtain ⟨w2', h2', a, b, c, _⟩ := network_total K2
+  rw [h2] at h2'; cases h2'
+  refine ⟨f w1, w2, h, a, b, c, ?_⟩
+  rw [← wb_enc_eq_des K2 M hK]
+  simp [wbEnc, h2, bind, Except.bind]
+
 /-! ### non-vacuity: the statements above talk about tables that exist and are not trivial -/
 
 /-- the hypotheses of the ∀-key theorems are just index ranges; instantiated at the key of tests/test_des.py -/
@@ -194,5 +227,11 @@ example (M : List Nat) : wbEnc [0x01, 0x23, 0x45, 0x67, 0x89, 0xab, 0xcd, 0xef] 
 /-- and the common value is a ciphertext, not an error, on an 8-byte block ("Now is t" under that key: 3fa40e8a984d4815) -/
 example : Des.enc [0x01, 0x23, 0x45, 0x67, 0x89, 0xab, 0xcd, 0xef] [78, 111, 119, 32, 105, 115, 32, 116]
     = .ok [0x3f, 0xa4, 0x0e, 0x8a, 0x98, 0x4d, 0x48, 0x15] := ok_of_toOption (by decide +kernel)
+
+/-- `gen_seq_key_only` with a modification that is not the identity (the first network loses all its tables) and two
+    different keys: the second network is still the one of its key -/
+example : ∃ w1 w2, mkWhiteDES [1, 2, 3, 4, 5, 6, 7, 8] = .ok w1 ∧ mkWhiteDES [0x81, 2, 3, 4, 5, 6, 7, 8] = .ok w2 ∧
+    genSeq [1, 2, 3, 4, 5, 6, 7, 8] (fun _ => ⟨[], [], [], []⟩) [0x81, 2, 3, 4, 5, 6, 7, 8] = .ok (⟨[], [], [], []⟩, w2) :=
+  gen_seq_key_only _ _ _
 
 end Proofs.C18
